@@ -26,7 +26,7 @@ package main
 //   F-PREVYEAR trigger as in C08; as-is: the record is appended to the same slot of the other year, i.e.
 //              comes back shifted by the distance between the two interval starts.
 //   F-JAN1     trigger: timeframe 1D and a record on January 1; as-is: those records are never returned.
-//   F-4HQUERY  trigger: timeframe 4H; as-is: ExecuteQuery answers "no files returned from query parse";
+//   F-4H       trigger: timeframe 4H; as-is: ExecuteQuery answers "no files returned from query parse";
 //              the stored data are then read through planner+reader on the unmodified key.
 
 import (
@@ -71,7 +71,7 @@ const c09period = 25 // 0 snappy-identical, 1 snappy-shape, 2 prevyear, 3 jan1, 
 
 func c09cases(tier string) int {
 	if tier == "thorough" {
-		return 3000
+		return 2500
 	}
 	return 400
 }
@@ -807,9 +807,9 @@ func c09run(c *runner.Ctx) runner.Result {
 			}
 			tbl = &ms.Table{Cols: map[string]interface{}{}}
 		}
-		if fourH && !reported["F-4HQUERY"] {
-			reported["F-4HQUERY"] = true
-			res.Known("F-4HQUERY", fmt.Sprintf("QueryService.ExecuteQuery on bucket %s after %d written records: 'no files returned from query parse' (the key's timeframe is rewritten to 2H); the same query through planner+reader on the unmodified key returns %d records", key, nRecs, tbl.N),
+		if fourH && !reported["F-4H"] {
+			reported["F-4H"] = true
+			res.Known("F-4H", fmt.Sprintf("QueryService.ExecuteQuery on bucket %s after %d written records: 'no files returned from query parse' (the key's timeframe is rewritten to 2H); the same query through planner+reader on the unmodified key returns %d records", key, nRecs, tbl.N),
 				map[string]interface{}{"bucket": key, "query": "ExecuteQuery(all time)", "returned": "error: no files returned from query parse"})
 		}
 		res.Count("records_compared", int64(tbl.N))
@@ -902,7 +902,7 @@ func init() {
 		Cases:        c09cases,
 		Batch:        20,
 		Run:          c09run,
-		BatchTimeout: 30 * time.Minute,
+		BatchTimeout: 90 * time.Minute,
 		Need:         []string{"records_written", "queries", "records_compared", "appends_to_existing_interval", "whole_second_records", "edge_offset_records"},
 	})
 }
